@@ -9,6 +9,7 @@ Only genuine builtin exception types are raised.
 """
 from __future__ import annotations
 
+import collections
 import errno
 import socket as _real_socket
 import sys
@@ -105,11 +106,11 @@ class SingleBytes(Whole):
 
 class CutSet(Whole):
     """cuts: sorted absolute offsets in the stream delivered on one socket since begin_call;
-    eintr: set of offsets at which one EINTR is raised before the piece starting there."""
+    eintr: offsets at which an EINTR is raised before the piece starting there (an offset listed k times: k in a row)."""
 
     def __init__(self, cuts, eintr=()):
         self.cuts = sorted(set(cuts))
-        self.eintr_at = set(eintr)
+        self.eintr_at = collections.Counter(eintr)
         self.name = "cuts"
 
     def piece(self, pos, avail, n):
@@ -119,8 +120,8 @@ class CutSet(Whole):
         return min(avail, n)
 
     def eintr(self, pos):
-        if pos in self.eintr_at:
-            self.eintr_at.discard(pos)
+        if self.eintr_at.get(pos, 0) > 0:
+            self.eintr_at[pos] -= 1
             return True
         return False
 
@@ -520,6 +521,10 @@ class FakeSocket:
             self.faulted = True
             self.rx.clear()
             raise net.health_exc("reset")
+        if n < 0:
+            raise ValueError("negative buffersize in recv")
+        if n == 0:
+            return b""          # like the kernel: a zero-length read returns at once with nothing
         avail = self.pending()
         if avail == 0:
             if self.peer_closed:
